@@ -124,6 +124,11 @@ pub fn compile(files: &[(String, String)], scripts: &[(String, String)], want: W
 
 /// `extra`: the extra runtime script of the group (`set_extra_runtime_script`)
 pub fn compile_with_extra(files: &[(String, String)], scripts: &[(String, String)], want: Want, fuel: u64, extra: Option<&str>) -> TmplRun {
+    compile_with_extras(files, scripts, want, fuel, extra, None)
+}
+
+/// `import_extra`: a second group holding one template `zz/imported` and this extra runtime script is imported into the group
+pub fn compile_with_extras(files: &[(String, String)], scripts: &[(String, String)], want: Want, fuel: u64, extra: Option<&str>, import_extra: Option<&str>) -> TmplRun {
     let mut run = TmplRun::default();
     let mut group = TmplGroup::new();
     if let Some(e) = extra {
@@ -144,6 +149,15 @@ pub fn compile_with_extra(files: &[(String, String)], scripts: &[(String, String
     }
     for (path, src) in scripts {
         group.add_script(path, src);
+    }
+    if let Some(e2) = import_extra {
+        let mut g2 = TmplGroup::new();
+        g2.set_extra_runtime_script(e2);
+        g2.add_tmpl("zz/imported", "<i/>");
+        if let Err(m) = guarded(|| group.import_group(&g2)) {
+            run.panic = Some(("import_group".into(), m));
+            return run;
+        }
     }
     let mut call = |name: String, f: &dyn Fn() -> Result<String, String>| {
         if run.panic.is_some() {
